@@ -156,7 +156,7 @@ class Check(DiffCheck):
     # lockset engine (lib/lockset.py): die/standby/dequeue blocks happen under the locks the life-cycle model assumes
     lockset_rules = {12, 13, 14, 15, 16, 17}
     coq_dirs = ['Base', 'E3', 'C05']
-    coq_targets = ['C05/C05_AsymProofs.vo', 'C05/C05_AsymTSO.vo', 'C05/C05_Proofs.vo', 'C05/C05_Proofs2.vo', 'C05/C05_Proofs3.vo', 'C05/C05_Proofs4.vo', 'C05/C05_Proofs5.vo', 'C05/C05_PoolProofs.vo']
+    coq_targets = ['C05/C05_AsymProofs.vo', 'C05/C05_AsymTSO.vo', 'C05/C05_Proofs.vo', 'C05/C05_Proofs2.vo', 'C05/C05_Proofs3.vo', 'C05/C05_Proofs4.vo', 'C05/C05_Proofs5.vo', 'C05/C05_PoolProofs.vo', 'C05/C05_E4Proofs.vo']
     properties_v = 'C05/C05_Properties.v'
     extract_v = 'C05/C05_Extract.v'
     runner_ml = 'ocaml/C05_run.ml'
@@ -165,13 +165,23 @@ class Check(DiffCheck):
     rule = ('P: E2 programs of 2-7 threads x 1-8 ops (create joinable/not, yield, usleep, interrupt, join, nthreads, released) on one vCPU '
             'under the virtual clock; non-trivial = a thread is created while another runs/sleeps and is joined or dies non-joinable. '
             'A: E3 schedules for asymmetric_spinLock, exhaustive prefixes for 2 participants, random for 3-4; non-trivial = owner and a '
-            'stealer both attempt the lock')
+            'stealer both attempt the lock. '
+            'M: E4 controlled replay on 2-3 vCPUs x 2-4 program threads with the REAL thread.cpp compiled into the harness: one vCPU acts at a time '
+            '(step to the next gate / park in the yield window / resume_threads / try_work_stealing / idler round / clock tick); the full placement '
+            '(per vCPU run-queue order, sleep queue, standby-queue order, nthreads; per thread state, vCPU, in-sleepq, wait queue, error, '
+            'started/returned/stack-released) is compared verbatim with the extracted model after EVERY command; generator: every interleaving of '
+            'vCPU turns (length 6-11) and every short word over the fine-grained commands around 8 hand-made scenarios (stealable + interrupted '
+            'sleeper in one standby queue in both orders, run-queue steals, migration ping-pong, expiry vs cross-vCPU interrupt, 3 vCPUs, dying '
+            'threads, steal inside the yield window) plus random programs x random command sequences; non-trivial = a migrate op or a stealable '
+            'thread with a steal scan, and commands for at least two vCPUs')
     assumptions = ['sequential consistency for the interleaving theorems (asymmetric lock additionally under x86-TSO: refuted, F5)',
                    'context-switch assembly and byte-level stacks outside the model; stack release observed through a recording allocator',
                    'the set of vCPUs is fixed during a run; main/idler threads are never migrated or joined']
-    partial_note = ('PARTIAL by design: cross-vCPU transitions (migrate, steal, cross-vCPU wake) are proved for every interleaving in the model '
-                    'but tied to the code only by single-vCPU E2 agreement of the same step function plus a non-deterministic stress run; '
-                    'engine E4 does not exist')
+    partial_note = ('PARTIAL: cross-vCPU transitions (migrate, cross-vCPU wake, drain, steal from run queue and standby queue) are proved for every '
+                    'interleaving in the model and tied to the code by the controlled E4 replay at GATE granularity (one vCPU acts at a time, between '
+                    'ops / idler calls / inside the yield window): interleavings INSIDE a block (two vCPUs inside their critical sections at once, lock '
+                    'hand-over, try_lock failures, memory-model effects) are covered by the lockset engine, the E3 tie of the run-queue lock and the '
+                    'stress run only; the library idler() loop itself is replaced by a commanded loop calling the same functions')
 
     # ---------------------------------------------------------------- build
     def build_impl(self):
@@ -346,6 +356,9 @@ while i < len(lines):
         ('expiry', 'M 2 p,a', ['create 2 1 1;create 3 0 1;usleep 40;interrupt 3 7', 'usleep 15;interrupt 2 4;interrupt 3 11;yield', 'usleep 20;yield;usleep 5', 'usleep 60;nop'], 's0 s0 s0 a0 a0 a0 a0'),
         # F: three vCPUs, two thieves around one victim; migrate of another thread (READY) by its creator
         ('three', 'M 3 p,a,ap', ['create 3 1 1;create 4 0 1;migrate 4 2;yield;join 3', 'yield;interrupt 3 4', 'interrupt 4 4;usleep 9', 'usleep 25;yield;nop', 'yield;usleep 3;yield'], 's0 s0'),
+        # H: class of known finding F23: a stealable thread parks inside the yield window (context not saved), the thief scans;
+        #    cases in which the thief RUNS it before the victim has saved the context are recognised by the model and not replayed
+        ('yieldwin', 'M 2 p,a', ['create 2 1 1;yield;nop', '-', 'yield;yield;nop'], 's0 s0 s0 s1 y0'),
         # G: dying threads, non-joinable and joinable, stolen before they ever ran; join from the other vCPU
         ('die', 'M 2 p,a', ['create 2 1 1;create 3 0 1;usleep 10;released 2;released 3', 'usleep 1;join 2;released 2;nthreads', 'nop', '-'], 's0 s0'),
     ]
@@ -358,19 +371,19 @@ while i < len(lines):
             base = '%s | %s | %s' % (head, ' | '.join(progs), setup)
             self._e4_cat = getattr(self, '_e4_cat', {})
             # (1) every interleaving of vCPU turns under the library idler's own policy (`a<v>`)
-            La = (7 if nv == 2 else 5) if quick else (11 if nv == 2 else 7)
+            La = (6 if nv == 2 else 4) if quick else (10 if nv == 2 else 6)
             for w in itertools.product(range(nv), repeat=La):
                 c = base + ' ' + ' '.join('a%d' % v for v in w)
                 cand.append(c); self._e4_cat[c] = 'M:%s:turns' % name
             # (2) every short word over the fine-grained commands after a random `a` prefix that reaches deeper states
             alpha = ['%s%d' % (k, v) for k in 'srwy' for v in range(nv)] + ['t25']
             Lf = 2 if quick else 3
-            for _ in range(3 if quick else 8):
+            for _ in range(2 if quick else 4):
                 pre = ' '.join('a%d' % rng.randrange(nv) for _ in range(rng.randrange(0, 9)))
                 for w in itertools.product(alpha, repeat=Lf):
                     c = (base + ' ' + pre).rstrip() + ' ' + ' '.join(w) + ' ' + ' '.join('a%d' % rng.randrange(nv) for _ in range(4))
                     cand.append(c); self._e4_cat[c] = 'M:%s:fine' % name
-        for _ in range(700 if quick else 12000):
+        for _ in range(600 if quick else 8000):
             c = self._rand_e4(rng)
             cand.append(c); self._e4_cat[c] = 'M:random:nv=%s' % c.split()[1]
         cp = [l.strip() for l in open(os.path.join(VERIF, 'replay', 'corpus', 'C05.cases')) if l.startswith('M ')] if os.path.exists(os.path.join(VERIF, 'replay', 'corpus', 'C05.cases')) else []
@@ -435,12 +448,25 @@ while i < len(lines):
         out = self._e4_model(cand)
         self._f23 = getattr(self, '_f23', {})
         keep = []
+        cov = dict(candidates=len(cand), dropped_tie=0, dropped_f23_manifest=0, kept_f23_class=0, steal_labels=0, cases_with_steal=0,
+                   scans_taking_2_or_more=0, drain_labels=0, resume_labels=0, standbyq_with_2_or_more=0, standby_sleepq_overlap=0)
         for c, o in zip(cand, out):
             if o is None: keep.append(c); continue
             pre = o[:40]
-            if 'TIE ' in pre or '{F23RUN}' in pre: continue
+            if 'TIE ' in pre: cov['dropped_tie'] += 1; continue
+            if '{F23RUN}' in pre: cov['dropped_f23_manifest'] += 1; continue
             self._f23[c] = '{F23CLASS}' in pre
+            cov['kept_f23_class'] += int(self._f23[c])
+            labs = ' '.join(re.findall(r'\{([^}]*)\}', o))
+            k = labs.count('LSteal')
+            cov['steal_labels'] += k; cov['cases_with_steal'] += int(k > 0)
+            cov['scans_taking_2_or_more'] += len(re.findall(r'LSteal\d+<\d+:T\d+ LSteal', labs))
+            cov['drain_labels'] += labs.count('LDrain'); cov['resume_labels'] += labs.count('LResume')
+            cov['standbyq_with_2_or_more'] += int(bool(re.search(r'b=\d+,\d+', o)))
+            cov['standby_sleepq_overlap'] += int(bool(re.search(r'=B\dz', o)))
             keep.append(c)
+        cov['cases'] = len(keep)
+        self.extra_coverage = dict(getattr(self, 'extra_coverage', {}) or {}); self.extra_coverage['e4_replay'] = cov
         return keep
 
     def _drop_ties(self, cand):
@@ -717,5 +743,5 @@ while i < len(lines):
         cov['stress_F24'] = out.strip()[-300:]
         if 'F24-CONFIRMED' in out:
             print('[C05] F24 confirmed on the real library: %s' % out.strip().splitlines()[-1][:300])
-        self.extra_coverage = cov
+        self.extra_coverage = dict(getattr(self, 'extra_coverage', {}) or {}); self.extra_coverage.update(cov)
         return viol
